@@ -349,6 +349,7 @@ pub struct StepW {
 	pub accessors: u32,
 	pub temp_coll: u32,
 	pub kill: u32,
+	pub park_key: u32,
 	pub p_try: u8,
 	pub p_read: u8,
 	pub p_owned_key: u8,
@@ -382,6 +383,7 @@ impl Default for StepW {
 			accessors: 0,
 			temp_coll: 0,
 			kill: 0,
+			park_key: 0,
 			p_try: 110,
 			p_read: 100,
 			p_owned_key: 100,
@@ -507,6 +509,7 @@ pub fn gen_seq(src: &mut Src<'_>, cfg: &SeqCfg) -> SeqCase {
 			sw.accessors,
 			sw.temp_coll,
 			if world.leaves.is_empty() { 0 } else { sw.kill },
+			if s.key { sw.park_key } else { 0 },
 		];
 		let Some(k) = src.weighted(&weights) else { continue };
 		let step = match k {
@@ -600,6 +603,20 @@ pub fn gen_seq(src: &mut Src<'_>, cfg: &SeqCfg) -> SeqCase {
 			}
 			12 => Step::Accessors { target: gen_target(src, &world, sw.p_coll_target) },
 			14 => Step::Kill { leaf: src.pick(world.leaves.len()) },
+			15 => {
+				let route = src.pick(4) as u8;
+				// 0 dropped: obtainable again, 1 leaked: gone for good,
+				// 2 / 3: back in the thread's hands
+				match route {
+					0 => st[t].key = false,
+					1 => {
+						st[t].key = false;
+						st[t].lost = true;
+					}
+					_ => {}
+				}
+				Step::ParkKey { cont: src.pick(crate::interp::PARK_CONTS as usize) as u8, route }
+			}
 			_ => {
 				let kind = match src.pick(3) {
 					0 => KindTag::Boxed,
